@@ -88,7 +88,6 @@ def deep_observation(c: Converter, curie_probes: list[str], uri_probes: list[str
     }
 
 
-__all__ = ["curies", "Converter", "Record", "mk_record", "mk_records", "mk_converter", "dump_record", "dump_records", "call", "lookup_snapshot", "deep_observation", "trie_items"]
 
 
 def mk_incremental_queried(spec: dict, order, queries) -> Converter:
@@ -144,3 +143,31 @@ def query_everything(c: Converter, strings, pairs=()) -> None:
                 c.get_record(p)
             except Exception:  # noqa: BLE001
                 pass
+
+
+BUILD_MODES = ["at-once", "at-once", "incremental", "chain"]
+
+
+def mk_converter_via(spec: dict, mode: str = "at-once") -> Converter:
+    """The converter denoted by ``spec`` reached through different histories (all must be equivalent, C05/C09):
+
+    * at-once      Converter(records)
+    * incremental  empty converter + add_record / add_prefix(merge=True), one string at a time (every synonym arrives
+                   through the merge path, so records start without synonyms and grow by in-place appends)
+    * chain        chain() of one converter holding the bare canonical pairs and further converters each contributing one
+                   synonym (only for the default delimiter, since chain does not propagate a delimiter)
+    """
+    d = spec.get("delimiter", ":")
+    if mode == "incremental" or (mode == "chain" and d != ":"):
+        return mk_incremental_queried(spec, range(len(spec["records"])), lambda c: None)
+    if mode == "chain":
+        recs = spec["records"]
+        base = Converter([mk_record({"prefix": r["prefix"], "uri_prefix": r["uri_prefix"], "pattern": r.get("pattern")}) for r in recs])
+        extra = []
+        for r in recs:
+            for syn in r["prefix_synonyms"]:
+                extra.append(Converter([mk_record({"prefix": syn, "uri_prefix": r["uri_prefix"]})]))
+            for syn in r["uri_prefix_synonyms"]:
+                extra.append(Converter([mk_record({"prefix": r["prefix"], "uri_prefix": syn})]))
+        return curies.chain([base, *extra]) if extra or recs else Converter([])
+    return mk_converter(spec)
